@@ -7,7 +7,7 @@ kinds:
   faketelnet  the real TelnetTransport / AsynctelnetTransport over in-process fake sockets / streams
   (real rigs — fake ssh on a pty, loopback TCP telnet, loopback asyncssh server — are in c11real.py)
 """
-import asyncio, io, os, tempfile, threading
+import asyncio, io, os, sys, tempfile, threading
 from typing import List, Optional
 
 from harness.simdevice import CliDevice
@@ -253,6 +253,7 @@ class Rig:
         self.in_hook = False
         self.in_timeout = False
         self.on_close_raised = False
+        self.dead_seen = False
         self.tmpdir = tmpdir
         self.user_bio: Optional[io.BytesIO] = None
         self.log_path = None
@@ -389,14 +390,24 @@ class Rig:
         if sync:
             def _topen():
                 rig.mark("topen")
-                return topen()
+                try:
+                    return topen()
+                except BaseException as e:
+                    rig.net.trace.append(("topen-raised", type(e).__name__))
+                    raise
         else:
             async def _topen():
                 rig.mark("topen")
-                return await topen()
+                try:
+                    return await topen()
+                except BaseException as e:
+                    rig.net.trace.append(("topen-raised", type(e).__name__))
+                    raise
 
         def _tclose():
-            if not rig.in_timeout:
+            # transport.close() called by the timeout decorator is not a statement of the driver methods
+            by_timer = rig.in_timeout or sys._getframe(1).f_code.co_name == "_handle_timeout"
+            if not by_timer:
                 rig.mark("tclose")
             return tclose()
 
@@ -473,21 +484,35 @@ class Rig:
             rig.depth += 1
             if top:
                 rig.mark(tag)
+            return top
+
+        def leave(top, exc):
+            rig.depth -= 1
+            if top:
+                rig.net.trace.append(("actend", tag, type(exc).__name__ if exc is not None else None))
+                if exc is not None and type(exc).__name__ != "ScrapliTimeout":
+                    rig.dead_seen = True     # (real rigs) the session is gone: later steps fail without the device's doing
 
         if is_async:
             async def w(*a, **k):
-                enter()
+                top = enter()
                 try:
-                    return await orig(*a, **k)
-                finally:
-                    rig.depth -= 1
+                    r = await orig(*a, **k)
+                except BaseException as e:
+                    leave(top, e)
+                    raise
+                leave(top, None)
+                return r
         else:
             def w(*a, **k):
-                enter()
+                top = enter()
                 try:
-                    return orig(*a, **k)
-                finally:
-                    rig.depth -= 1
+                    r = orig(*a, **k)
+                except BaseException as e:
+                    leave(top, e)
+                    raise
+                leave(top, None)
+                return r
         setattr(obj, name, w)
 
     def _timeout_fires(self):
@@ -536,6 +561,12 @@ class Rig:
         t.read = _read
 
     # ---- observation
+    def settle(self):
+        """give asynchronous releases (event loop callbacks, library threads) time to finish; nothing to wait for on Sim"""
+
+    async def asettle(self):
+        pass
+
     def flags(self):
         ch = self.conn.channel.channel_log
         file_open = ch is not None and ch is not self.user_bio and not ch.closed
@@ -636,7 +667,31 @@ def _result(rig, op, out, seg_start, fds0, thr0):
                 on_close_raised=rig.on_close_raised, nreads=rig.net.nreads, nwrites=rig.net.nwrites)
 
 
-def run_case_sync(case):
+def _operate_sync(rig, conn):
+    rig.mark("operate")
+    try:
+        conn.send_command("show version")
+    except Exception as e:
+        rig.net.trace.append(("actend", "operate", type(e).__name__))
+        if type(e).__name__ != "ScrapliTimeout":
+            rig.dead_seen = True
+        raise
+    rig.net.trace.append(("actend", "operate", None))
+
+
+async def _operate_async(rig, conn):
+    rig.mark("operate")
+    try:
+        await conn.send_command("show version")
+    except Exception as e:
+        rig.net.trace.append(("actend", "operate", type(e).__name__))
+        if type(e).__name__ != "ScrapliTimeout":
+            rig.dead_seen = True
+        raise
+    rig.net.trace.append(("actend", "operate", None))
+
+
+def run_case_sync(case, rig_factory=None):
     """returns list of per-op results; raises RigTrouble on harness problems"""
     cwd = os.getcwd()
     with tempfile.TemporaryDirectory(prefix="c11-") as tmp:
@@ -644,7 +699,7 @@ def run_case_sync(case):
         rig = None
         try:
             fds0, thr0 = fd_count(), threading.active_count()
-            rig = Rig(case, tmp)
+            rig = (rig_factory or Rig)(case, tmp)
             conn = rig.conn
             results = []
             for spec in case["ops"]:
@@ -661,8 +716,7 @@ def run_case_sync(case):
                     elif op == "C":
                         conn.close()
                     elif op == "X":
-                        rig.mark("operate")
-                        conn.send_command("show version")
+                        _operate_sync(rig, conn)
                     elif op == "W":
                         entered = False
                         try:
@@ -672,8 +726,7 @@ def run_case_sync(case):
                                 try:
                                     for b in spec.get("body", ""):
                                         if b == "x":
-                                            rig.mark("operate")
-                                            conn.send_command("show version")
+                                            _operate_sync(rig, conn)
                                         elif b == "c":
                                             conn.close()
                                         elif b == "o":
@@ -696,6 +749,8 @@ def run_case_sync(case):
                 except Exception as e:   # noqa
                     out = exc_name(e)
                 rig.disarm()
+                rig.net.trace.append(("opend", op, None if out == "ret" else out))
+                rig.settle()
                 res = _result(rig, op, out, seg_start, fds0, thr0)
                 res["reads"], res["writes"] = rig.net.nreads - r0, rig.net.nwrites - w0
                 results.append(res)
@@ -706,14 +761,14 @@ def run_case_sync(case):
             os.chdir(cwd)
 
 
-async def run_case_async(case):
+async def run_case_async(case, rig_factory=None):
     cwd = os.getcwd()
     with tempfile.TemporaryDirectory(prefix="c11-") as tmp:
         os.chdir(tmp)
         rig = None
         try:
             fds0, thr0 = fd_count(), threading.active_count()
-            rig = Rig(case, tmp)
+            rig = (rig_factory or Rig)(case, tmp)
             conn = rig.conn
             results = []
             for spec in case["ops"]:
@@ -730,8 +785,7 @@ async def run_case_async(case):
                     elif op == "C":
                         await conn.close()
                     elif op == "X":
-                        rig.mark("operate")
-                        await conn.send_command("show version")
+                        await _operate_async(rig, conn)
                     elif op == "W":
                         entered = False
                         try:
@@ -741,8 +795,7 @@ async def run_case_async(case):
                                 try:
                                     for b in spec.get("body", ""):
                                         if b == "x":
-                                            rig.mark("operate")
-                                            await conn.send_command("show version")
+                                            await _operate_async(rig, conn)
                                         elif b == "c":
                                             await conn.close()
                                         elif b == "o":
@@ -765,6 +818,8 @@ async def run_case_async(case):
                 except Exception as e:   # noqa
                     out = exc_name(e)
                 rig.disarm()
+                rig.net.trace.append(("opend", op, None if out == "ret" else out))
+                await rig.asettle()
                 res = _result(rig, op, out, seg_start, fds0, thr0)
                 res["reads"], res["writes"] = rig.net.nreads - r0, rig.net.nwrites - w0
                 results.append(res)
